@@ -53,6 +53,9 @@ FOREIGN_HOME_MODULES = set()     # top-level module names of the package (filled
 FOREIGN_FUNCS = {}    # module-level functions of top-level package modules, likewise (callers import them by name)
 FOREIGN = {}          # method name -> FunctionDef: methods of package classes (defined once in the whole package, not known to the rule tables,
                       # touching only their own object) that callers in other classes / modules may have inlined
+PARAM_READONLY = {}   # function / method name -> set of parameter names that every definition of that name only reads (membership, iteration, formatting,
+                      # handing on to a parameter that is itself only read): a shared constant display may be passed where a fresh one was (filled by build_foreign)
+IMPORTED_NAMES = set()  # names some module of the package imports from another one (`from .m import X`)
 ATTR_FOREIGN = set()  # attribute names read or written on something other than the `self` of the enclosing method (or named in a string)
 ATTR_SELF = {}        # attribute name -> {(module, class, bound in that class's __init__)}: where it is used as `self.name`
 ATTR_MODULES = {}     # attribute name -> set of modules in which `<expr>.name` occurs (filled by build_foreign)
@@ -180,6 +183,7 @@ def build_foreign(trees, known):
                 out[m.name] = m
     _build_records(trees, known)
     _build_pure_props(trees, known)
+    _build_param_readonly(trees)
     ATTR_MODULES.clear()
     ATTR_FOREIGN.clear()
     ATTR_SELF.clear()
@@ -4893,6 +4897,242 @@ def _module_tables(tree, stats):
         i += 1
 
 
+_RO_BUILTINS = {"len", "tuple", "list", "sorted", "set", "frozenset", "str", "repr", "bool", "any", "all", "min", "max", "sum", "enumerate", "iter", "isinstance", "bytes", "dict"}
+
+
+def _build_param_readonly(trees):
+    """PARAM_READONLY: greatest fixpoint over all function definitions of the package: id(def) -> parameters the function only reads.  A call is
+    matched to the definitions of that name that can take its arguments (all of them must agree)."""
+    PARAM_READONLY.clear()
+    IMPORTED_NAMES.clear()
+    PARAM_DEFS.clear()
+    cls_funcs = set(id(m) for t in trees.values() for c in ast.walk(t) if isinstance(c, ast.ClassDef) for m in c.body if isinstance(m, (ast.FunctionDef, ast.AsyncFunctionDef)))
+    for t in trees.values():
+        for n in ast.walk(t):
+            if isinstance(n, (ast.FunctionDef, ast.AsyncFunctionDef)):
+                is_method = id(n) in cls_funcs and not any(isinstance(x, ast.Name) and x.id == "staticmethod" for x in n.decorator_list)
+                PARAM_DEFS.setdefault(n.name, []).append((n, is_method))
+            elif isinstance(n, ast.ImportFrom) and n.level > 0:
+                for a_ in n.names:
+                    IMPORTED_NAMES.add(a_.name)
+    cur = {}
+    for name, lst in PARAM_DEFS.items():
+        for d, _m in lst:
+            a_ = d.args
+            cur[id(d)] = set(x.arg for x in a_.posonlyargs + a_.args + a_.kwonlyargs)
+
+    def readonly(d, p):
+        parent = {}
+        for n in ast.walk(d):
+            for c in ast.iter_child_nodes(n):
+                parent[id(c)] = n
+        if any(isinstance(n, (ast.FunctionDef, ast.AsyncFunctionDef, ast.Lambda)) and n is not d and any(isinstance(x, ast.Name) and x.id == p for x in ast.walk(n)) for n in ast.walk(d)):
+            return False
+        for n in ast.walk(d):
+            if not (isinstance(n, ast.Name) and n.id == p):
+                continue
+            if isinstance(n.ctx, (ast.Store, ast.Del)):
+                continue          # re-binding the name does not touch the object
+            q = parent.get(id(n))
+            if isinstance(q, ast.Compare) and any(c is n for c in q.comparators) and all(isinstance(o, (ast.In, ast.NotIn, ast.Eq, ast.NotEq, ast.Is, ast.IsNot)) for o in q.ops):
+                continue
+            if isinstance(q, ast.Compare) and q.left is n and all(isinstance(o, (ast.Eq, ast.NotEq, ast.Is, ast.IsNot)) for o in q.ops):
+                continue
+            if isinstance(q, (ast.For, ast.AsyncFor, ast.comprehension)) and q.iter is n:
+                continue
+            if isinstance(q, ast.Subscript) and q.value is n and isinstance(q.ctx, ast.Load):
+                continue
+            if isinstance(q, (ast.BoolOp, ast.UnaryOp, ast.If, ast.While)) or (isinstance(q, ast.IfExp) and q.test is n):
+                continue          # truth value
+            if isinstance(q, ast.Tuple) and isinstance(parent.get(id(q)), ast.BinOp) and isinstance(parent[id(q)].op, ast.Mod):
+                continue          # '%s' % (.., p, ..)
+            if isinstance(q, ast.BinOp) and isinstance(q.op, ast.Mod) and q.right is n:
+                continue
+            if isinstance(q, ast.BinOp) and isinstance(q.op, ast.Add):
+                continue          # a + p builds a new sequence
+            if isinstance(q, ast.Starred):
+                continue          # *p copies the elements
+            if isinstance(q, ast.Call) and (any(a_ is n for a_ in q.args) or any(k.value is n for k in q.keywords)):
+                pos = next((i for i, a_ in enumerate(q.args) if a_ is n), None)
+                kw = next((k.arg for k in q.keywords if k.value is n), None)
+                if _arg_readonly(q, pos, kw, cur):
+                    continue
+                return False
+            return False
+        return True
+    for _round in range(8):
+        changed = False
+        for name, lst in PARAM_DEFS.items():
+            for d, _m in lst:
+                for p_ in list(cur[id(d)]):
+                    if not readonly(d, p_):
+                        cur[id(d)].discard(p_)
+                        changed = True
+        if not changed:
+            break
+    PARAM_READONLY.update(cur)
+
+
+def _arg_readonly(call, pos, kw, table=None):
+    """the argument at position `pos` (or keyword `kw`) of this call goes to a parameter that every definition the call can mean only reads"""
+    table = PARAM_READONLY if table is None else table
+    f = call.func
+    if isinstance(f, ast.Name) and f.id in _RO_BUILTINS:
+        return True
+    if isinstance(f, ast.Attribute) and f.attr in ("format", "debug", "info", "warning", "error", "join"):
+        return True
+    if isinstance(f, ast.Attribute) and isinstance(f.value, ast.Name) and f.value.id == "exceptions":
+        return True          # formatted into an exception's message
+    cname = f.attr if isinstance(f, ast.Attribute) else f.id if isinstance(f, ast.Name) else None
+    lst = PARAM_DEFS.get(cname)
+    if not lst:
+        return False
+    if any(isinstance(a_, ast.Starred) for a_ in (call.args[:pos + 1] if pos is not None else call.args)) or any(k.arg is None for k in call.keywords):
+        return False
+    npos = len(call.args)
+    kws = [k.arg for k in call.keywords]
+    cands = []
+    for d, is_method in lst:
+        a_ = d.args
+        names = [x.arg for x in a_.posonlyargs + a_.args]
+        if is_method and isinstance(f, ast.Attribute):
+            names = names[1:]
+        elif is_method != isinstance(f, ast.Attribute) and is_method:
+            continue
+        allnames = set(names) | set(x.arg for x in a_.kwonlyargs)
+        if npos > len(names) and a_.vararg is None:
+            continue
+        if any(k not in allnames for k in kws) and a_.kwarg is None:
+            continue
+        required = len(names) - len(a_.defaults)
+        if npos + len([k for k in kws if k in names]) < required:
+            continue
+        cands.append((d, names))
+    if not cands:
+        return False
+    for d, names in cands:
+        if kw is not None:
+            tp = kw
+        else:
+            tp = names[pos] if pos < len(names) else None
+        if tp is None or tp not in table.get(id(d), ()):
+            return False
+    return True
+
+
+PARAM_DEFS = {}          # function name -> [(FunctionDef, is a method taking self)]
+
+
+def _arg_readonly_expanded(call, starred, pos, k):
+    """as _arg_readonly, for the element that lands at position `pos` once the starred display of k elements is written out"""
+    fake = copy.copy(call)
+    i = next(j for j, a_ in enumerate(call.args) if a_ is starred)
+    fake.args = list(call.args[:i]) + [ast.Constant(value=None)] * k + list(call.args[i + 1:])
+    return _arg_readonly(fake, pos, None)
+
+
+def _inline_module_displays(tree, modname, stats, log):
+    """A private module-level name bound once to a display of constants (`_STREAM_CMDS = [constants.CLSE, constants.WRTE]`, a dict of such lists) and
+    only ever read - indexed by a constant, handed to parameters that are only read (PARAM_READONLY), iterated, tested for membership - is the display
+    written out at each use: sharing one object instead of building a fresh one cannot be observed."""
+    def const_leaf(e):
+        return isinstance(e, ast.Constant) or (isinstance(e, ast.Attribute) and isinstance(e.value, ast.Name) and e.value.id == "constants")
+
+    def const_display(e):
+        if const_leaf(e):
+            return True
+        if isinstance(e, (ast.List, ast.Tuple, ast.Set)):
+            return all(const_display(x) for x in e.elts)
+        if isinstance(e, ast.Dict):
+            return all(k is not None and const_leaf(k) and const_display(v) for k, v in zip(e.keys, e.values))
+        return False
+    cands = {}
+    for st in tree.body:
+        if isinstance(st, ast.Assign) and len(st.targets) == 1 and isinstance(st.targets[0], ast.Name) and isinstance(st.value, (ast.List, ast.Tuple, ast.Dict, ast.Set)) and const_display(st.value):
+            nm = st.targets[0].id
+            if nm.startswith("_") and not nm.startswith("__") and nm not in IMPORTED_NAMES:
+                cands[nm] = st
+    if not cands:
+        return
+    parent = {}
+    for n in ast.walk(tree):
+        for c in ast.iter_child_nodes(n):
+            parent[id(c)] = n
+    for nm, st in sorted(cands.items()):
+        occ = [n for n in ast.walk(tree) if isinstance(n, ast.Name) and n.id == nm]
+        if sum(1 for n in occ if isinstance(n.ctx, (ast.Store, ast.Del))) != 1 or any(isinstance(n, (ast.Global, ast.Nonlocal)) and nm in n.names for n in ast.walk(tree)):
+            continue
+        loads = [n for n in occ if isinstance(n.ctx, ast.Load)]
+        if not loads:
+            continue
+        plan = []
+        ok = True
+        for n in loads:
+            node, val = n, st.value
+            # constant subscripts
+            while True:
+                q = parent.get(id(node))
+                if isinstance(q, ast.Subscript) and q.value is node and isinstance(q.ctx, ast.Load) and const_leaf(q.slice):
+                    if isinstance(val, ast.Dict):
+                        hit = [v for k, v in zip(val.keys, val.values) if ast.dump(k) == ast.dump(q.slice)]
+                        if len(hit) != 1:
+                            ok = False
+                            break
+                        val = hit[0]
+                    elif isinstance(val, (ast.List, ast.Tuple)) and isinstance(q.slice, ast.Constant) and isinstance(q.slice.value, int) and 0 <= q.slice.value < len(val.elts):
+                        val = val.elts[q.slice.value]
+                    else:
+                        ok = False
+                        break
+                    node = q
+                    continue
+                break
+            if not ok:
+                break
+            q = parent.get(id(node))
+            # the context the (sub-)display ends up in
+            safe = False
+            if const_leaf(val):
+                safe = True
+            elif isinstance(q, ast.Compare) and any(c is node for c in q.comparators) and all(isinstance(o, (ast.In, ast.NotIn)) for o in q.ops):
+                safe = True
+            elif isinstance(q, (ast.For, ast.AsyncFor, ast.comprehension)) and q.iter is node:
+                safe = True
+            elif isinstance(q, ast.Starred) and isinstance(val, (ast.List, ast.Tuple)):
+                c = parent.get(id(q))
+                if isinstance(c, ast.Call) and any(a is q for a in c.args) and sum(1 for a in c.args if isinstance(a, ast.Starred)) == 1:
+                    pos = [i for i, a in enumerate(c.args) if a is q][0]
+                    safe = all(const_leaf(e) or _arg_readonly_expanded(c, q, pos + k, len(val.elts)) for k, e in enumerate(val.elts))
+            elif isinstance(q, ast.Call) and any(a is node for a in q.args) and not any(isinstance(a, ast.Starred) for a in q.args):
+                safe = _arg_readonly(q, [i for i, a in enumerate(q.args) if a is node][0], None)
+            elif isinstance(q, ast.keyword) and isinstance(parent.get(id(q)), ast.Call):
+                safe = _arg_readonly(parent[id(q)], None, q.arg)
+            if not safe:
+                ok = False
+                break
+            plan.append((node, val))
+        if not ok:
+            continue
+        for node, val in plan:
+            q = parent.get(id(node))
+            new = ast.copy_location(copy.deepcopy(val), node)
+            ast.fix_missing_locations(new)
+            for fld, v in ast.iter_fields(q):
+                if v is node:
+                    setattr(q, fld, new)
+                elif isinstance(v, list):
+                    for k, x in enumerate(v):
+                        if x is node:
+                            v[k] = new
+        tree.body[:] = [x for x in tree.body if x is not st]
+        stats["MODCONST"] = stats.get("MODCONST", 0) + 1
+        log.append("module-level constant display %s written out at its %d uses" % (nm, len(plan)))
+        parent = {}
+        for n in ast.walk(tree):
+            for c in ast.iter_child_nodes(n):
+                parent[id(c)] = n
+
+
 def canonicalise(tree, modname, known, stats=None, log=None):
     """Rewrite `tree` (a parsed module) in place into canonical form; returns the statistics dict."""
     stats = stats if stats is not None else {}
@@ -4991,6 +5231,7 @@ def canonicalise(tree, modname, known, stats=None, log=None):
                 _CUR_SENTINELS.add(nm)
     SENTINELS[modname] = set(_CUR_SENTINELS)
     _module_tables(tree, stats)
+    _inline_module_displays(tree, modname, stats, log)
     normalise()
     inl = Inliner(tree, modname, known, stats, log)
     inl.run()
